@@ -149,16 +149,17 @@ func rndHubCase(r *rand.Rand, steps int) Case {
 	return c
 }
 
-// crowd: more connections than the state message's one-byte player count can carry.
+// crowd: more connections than the state message's one-byte player count can carry.  Capacity 1: only the two
+// clients that took their id message get the next state frame, everybody else is dropped by that tick.
 func crowdCase(r *rand.Rand, n int) Case {
-	c := Case{Kind: "hub", N: n, Cap: 3, Tag: "crowd", Ev: []Event{}}
+	c := Case{Kind: "hub", N: n, Cap: 1, Tag: "crowd", Ev: []Event{}}
 	for i := 1; i <= n; i++ {
 		c.Ev = append(c.Ev, Event{Op: "register", C: i})
 		if i == 2 || i == n-2 {
 			c.Ev = append(c.Ev, rndUpdate(r, 1+r.Intn(i), false))
 		}
 	}
-	c.Ev = append(c.Ev, Event{Op: "tick"}, Event{Op: "recv", C: 1}, Event{Op: "recv", C: 1},
+	c.Ev = append(c.Ev, Event{Op: "recv", C: 1}, Event{Op: "recv", C: 2}, Event{Op: "tick"}, Event{Op: "recv", C: 1},
 		Event{Op: "unregister", C: 3}, Event{Op: "unregister", C: n}, Event{Op: "tick"}, Event{Op: "recv", C: 2}, Event{Op: "recv", C: 2})
 	return c
 }
